@@ -1,6 +1,7 @@
 import TakVerif.Props.C05
 import TakVerif.Proofs.ServeCache
 import TakVerif.Proofs.ServeDepth1
+import TakVerif.Proofs.ServeToy
 
 /-!
 # C05 at its consumers: the RPCs `Analyze` and `IsPositionInTak` of `cmd/internal/serve`
@@ -321,5 +322,29 @@ theorem intak_iff (env : Env P M) (hg : ∀ n, GameOK (env.game n)) (he : ∀ n,
               subst hin
               refine ⟨⟨(fun h => by cases h), (fun h => ?_)⟩, (fun h => by cases h)⟩
               exact absurd (by rw [hval]; exact hiff.mpr h.2) hwin
+
+/-! ## non-vacuity (evaluated by the kernel)
+
+`Serve.Toy.env`: the subtraction game (take 1 or 2; whoever faces the empty heap has lost) behind the handlers, engines
+with 2-entry tables.  All hypotheses of the three theorems hold for it, and the model really answers. -/
+
+example : (∀ n, GameOK (Serve.Toy.env.game n)) ∧ (∀ n, EvalOK (Serve.Toy.env.game n)) ∧
+    (∀ n, EvalBounded (Serve.Toy.env.game n)) ∧ (∀ n, HashInj (Serve.Toy.env.game n)) ∧
+    Quiet (Oracle.quiet : Oracle Nat) :=
+  ⟨fun _ => Toy.gameOK, fun _ => Toy.evalOK, fun _ => Toy.evalBounded, fun _ => Toy.hashInj,
+   Toy.quiet_order, Toy.quiet_nc⟩
+
+/-- one server, seven requests: heap 5 at depth 4 precise (a win, found at depth 3: line 2,1,2), heap 3 on the SAME
+engine (lost), heap 5 again at depth 2 (the key changes: a new engine; nothing decisive within 2 plies), a position
+that does not parse (an error; nothing changes), and three `IsPositionInTak`: with heap 2 the player not to move would
+take both and win (`TakMove` = 2), with heap 3 not, with the finished heap 0 not -/
+example :
+    ((Server.run Serve.Toy.env {}
+      [.analyze [5] 4 true Oracle.quiet, .analyze [3] 4 true Oracle.quiet, .analyze [5] 2 true Oracle.quiet,
+       .analyze [40] 2 true Oracle.quiet,
+       .isInTak [2] Oracle.quiet, .isInTak [3] Oracle.quiet, .isInTak [0] Oracle.quiet]).1.map Serve.Toy.view) =
+    [some (.analyze [[2], [1], [2]] Facts.winBase), some (.analyze [[1], [2]] (-Facts.winBase)),
+     some (.analyze [[1], [1]] 0), none,
+     some (.isInTak true [2]), some (.isInTak false []), some (.isInTak false [])] := by decide
 
 end C05
